@@ -47,6 +47,13 @@ Theorem C07_reference : forall ek k1 rate ul h,
 Proof. intros. apply ref_final. reflexivity. Qed.
 Print Assumptions C07_reference.
 
+(* once any packet has been sent the reference time is set, whatever its
+   timestamp (design-review finding F6 was a history violating this) *)
+Theorem C07_reference_time_set : forall ek k1 rate ul pre now seq ts len post,
+  exists t, s_ref_time (s_final ek k1 rate ul s_init (pre ++ SRtp now seq ts len :: post)) = Some t.
+Proof. exact ref_time_set. Qed.
+Print Assumptions C07_reference_time_set.
+
 (* without use-latest an out-of-order send (not newer than the newest sent, in
    the half-range order) leaves the reference untouched *)
 Theorem C07_no_backward : forall st now seq ts len,
